@@ -122,6 +122,71 @@ Proof.
   now rewrite (span_exact is_name_char nm rest Hnm Hrest).
 Qed.
 
+(** completeness: if any well-formed reference is a prefix of the text, the
+    scanner finds a reference there (it never skips a position where the
+    pattern matches) *)
+Lemma match_here_complete : forall s r rest,
+  wf_ref r -> s = ref_src r ++ rest -> match_here s <> None.
+Proof.
+  intros s [body|name] rest Hwf Hs; subst s; cbn [ref_src app].
+  - destruct Hwf as [Hne Hnb]. rewrite <- app_assoc. cbn [app].
+    rewrite (match_here_braced body rest Hne Hnb). discriminate.
+  - destruct Hwf as (c & nm & -> & Hc & Hnm). cbn [app].
+    unfold match_here. change (DOLLAR =? DOLLAR) with true. cbn [negb].
+    rewrite (is_name_start_not_lbrace c Hc), Hc.
+    destruct (span is_name_char (nm ++ rest)). discriminate.
+Qed.
+
+(** the braced alternative can match in only one way at a given position *)
+Lemma braced_unique : forall b1 b2 r1 r2,
+  ~ In RBRACE b1 -> ~ In RBRACE b2 ->
+  b1 ++ RBRACE :: r1 = b2 ++ RBRACE :: r2 -> b1 = b2 /\ r1 = r2.
+Proof.
+  induction b1 as [|x b1 IH]; intros [|y b2] r1 r2 H1 H2 E; cbn in E.
+  - inversion E. auto.
+  - inversion E; subst. exfalso. apply H2. now left.
+  - inversion E; subst. exfalso. apply H1. now left.
+  - inversion E; subst. destruct (IH b2 r1 r2) as [-> ->]; auto.
+    + intro Hin. apply H1. now right.
+    + intro Hin. apply H2. now right.
+Qed.
+
+Lemma span_prefix_run : forall t rest' nm2 r2,
+  forallb is_name_char t = true -> span is_name_char (t ++ rest') = (nm2, r2) ->
+  exists more, nm2 = t ++ more /\ rest' = more ++ r2.
+Proof.
+  induction t as [|x t IH]; intros rest' nm2 r2 Ht Es.
+  - exists nm2. split; [reflexivity|]. now apply span_app in Es.
+  - cbn in Ht. apply andb_true_iff in Ht as [Hx Ht]. cbn [app span] in Es. rewrite Hx in Es.
+    destruct (span is_name_char (t ++ rest')) as [a b] eqn:E. inversion Es; subst.
+    destruct (IH rest' a r2 Ht E) as (more & -> & ->). exists more. auto.
+Qed.
+
+(** the scanner's answer is the leftmost-first, greedy match of the pattern
+    anchored at the head of the text: alternative 1 (braced) whenever it
+    matches, else alternative 2 with the longest possible name *)
+Lemma match_here_is_the_regex_match : forall s r rest,
+  match_here s = Some (r, rest) ->
+  (* it is a match *)
+  s = ref_src r ++ rest /\ wf_ref r /\
+  (* any braced match at this position is this one *)
+  (forall b rest', wf_ref (RBraced b) -> s = ref_src (RBraced b) ++ rest' -> r = RBraced b /\ rest = rest') /\
+  (* any simple match at this position is a prefix of this one *)
+  (forall nm rest', wf_ref (RSimple nm) -> s = ref_src (RSimple nm) ++ rest' ->
+     exists nm' more, r = RSimple nm' /\ nm' = nm ++ more /\ rest' = more ++ rest).
+Proof.
+  intros s r rest H. destruct (match_here_sound _ _ _ H) as (Hs & Hwf & Hmax).
+  split; [exact Hs|]. split; [exact Hwf|]. split.
+  - intros b rest' [Hne Hnb] Hs'. cbn [ref_src app] in Hs'. rewrite <- app_assoc in Hs'. cbn [app] in Hs'.
+    rewrite Hs', (match_here_braced b rest' Hne Hnb) in H. inversion H. auto.
+  - intros nm rest' (c & t & -> & Hc & Ht) Hs'. cbn [ref_src app] in Hs'.
+    rewrite Hs' in H. unfold match_here in H. change (DOLLAR =? DOLLAR) with true in H. cbn [negb] in H.
+    rewrite (is_name_start_not_lbrace c Hc), Hc in H.
+    destruct (span is_name_char (t ++ rest')) as [nm2 r2] eqn:Es. inversion H; subst.
+    destruct (span_prefix_run t rest' nm2 rest Ht Es) as (more & -> & ->).
+    exists (c :: t ++ more), more. auto.
+Qed.
+
 (** * tokens *)
 
 Lemma tokens_from_skip : forall a b, tokens_from (length a) (a ++ b) = tokens_from O b.
